@@ -546,6 +546,8 @@ class Interp:
                     ev(name, idx, 'body_done', k)
             except IntervalExceeded:
                 ev(name, idx, 'exceeded', k)
+                if st.get('propagate'):
+                    raise
             except ValueError:
                 ev(name, idx, 'valueerror')
             else:
@@ -606,6 +608,12 @@ class Interp:
                             t.cancel(*fs.get('token', ()))
                     else:
                         ev(name, fidx, 'mark', fs.get('v'))
+        elif op == 'try':
+            # user code handling a failure of its block (the block is left by that exception)
+            try:
+                await self.steps(name, idx + ('b',), st.get('body', ()))
+            except (IntervalExceeded, ProgErr) as e:
+                ev(name, idx, 'caught', self.describe(e))
         elif op == 'cleanup':
             # body with *asynchronous* clean-up on interruption (a payload that suspends while reacting
             # to a cancellation); never awaits on forceful close
